@@ -28,6 +28,7 @@ def run(model, res, tier):
     res.rule('R5', 'slice shapes of LEFT / RIGHT / MID')
     res.rule('R6', 'case / length / character functions delegate to the right string operation')
     res.rule('R7', 'no cache or shared state')
+    res.rule('R8', '& and LEN/CONCATENATE agree on the text of a number (LEN(a&b) = LEN(a)+LEN(b) for numeric operands too)')
     res.trusted += ['hxsa abstract interpreter with integer linear forms', 'CPython ast']
     em, singles = error_singletons(model)
     E = dict((msg, n) for n, msg in singles.items())
@@ -35,6 +36,7 @@ def run(model, res, tier):
     _substitute(model, res)
     _joins(model, res, E)
     _delegation(model, res)
+    _text_of_number(model, res)
     keys = []
     for n in ('LEFT', 'RIGHT', 'MID', 'SUBSTITUTE', 'CONCATENATE', 'TEXTJOIN', 'UPPER', 'LOWER', 'PROPER', 'TRIM', 'CLEAN', 'LEN', 'CHAR', 'CODE'):
         m, f = model.registered(n)
@@ -203,6 +205,18 @@ def _substitute(model, res):
         elif o.kind == 'return':
             v = o.value
             ok = isinstance(v, Atom) and v.op == 'replace' and [getattr(a, 'name', None) for a in v.args] == ['T', 'O', 'N']
+            if not ok and isinstance(v, Atom) and v.op == 're.sub' and len(v.args) == 3:
+                pat, repl, subj = v.args
+                lit = isinstance(pat, Atom) and pat.op == 're.escape' and getattr(pat.args[0], 'name', None) == 'O'
+                if lit and getattr(subj, 'name', None) == 'T' and getattr(repl, 'name', None) == 'N':
+                    res.ob('R3', 'SUBSTITUTE', {'returns': repr(v)[:60]}, False, 'the replacement text is used as a regex template')
+                    res.violation('R3', 'function:SUBSTITUTE:replacement-template', m.where(f),
+                                  'SUBSTITUTE replaces through a regular expression and passes the new text as the replacement *template* (%r): '
+                                  'a backslash in the new text is interpreted (\\n, \\1, \\g<0>) or rejected instead of being inserted as written'
+                                  % (v,), func=f.name)
+                    continue
+                if lit and getattr(subj, 'name', None) == 'T' and isinstance(repl, Func):
+                    ok = True       # a callable replacement inserts its result literally
             res.ob('R3', 'SUBSTITUTE', {'returns': repr(v)[:60]}, ok)
             if not ok:
                 res.violation('R3', 'function:SUBSTITUTE:replace-all', m.where(f),
@@ -219,6 +233,11 @@ def _substitute(model, res):
             v = o.value
             ok = o.kind == 'return' and isinstance(v, Atom) and v.op == 'replace' and isinstance(v.args[0], Sym) and v.args[0].name == 'T' and \
                 isinstance(v.args[1], Sym) and v.args[1].name == 'O' and isinstance(v.args[2], Const) and v.args[2].value == ''
+            if not ok and o.kind == 'return' and isinstance(v, Atom) and v.op == 're.sub' and len(v.args) == 3:
+                # the same deletion through a regular expression that matches the old text literally
+                pat, repl, subj = v.args
+                ok = isinstance(pat, Atom) and pat.op == 're.escape' and getattr(pat.args[0], 'name', None) == 'O' and \
+                    isinstance(repl, Const) and repl.value == '' and getattr(subj, 'name', None) == 'T'
             res.ob('R3', 'SUBSTITUTE', {'case': label}, ok, repr(o))
             if not ok:
                 res.violation('R3', 'function:SUBSTITUTE:%s' % label.replace(' ', '-'), m.where(f),
@@ -335,3 +354,59 @@ def _delegation(model, res):
     res.ob('R6', 'CODE', 'ord(c)', ok, H.describe(outs))
     if not ok:
         res.violation('R6', 'function:CODE:delegation', m.where(f), 'CODE(c) must be ord(c); got %s' % '; '.join(H.describe(outs)), func=f.name)
+
+
+def _text_of_number(model, res):
+    """The text a number contributes to a & b is the text LEN and CONCATENATE see: the same conversion of the same operand."""
+    from .. import roles, ctx as ctxmod
+    from . import c06
+    c = ctxmod.get(model)
+    g = c.grammar
+    acts = roles.binary_actions(g)
+    m, f = acts['concat']
+
+    def conv_in(v, name):
+        """the sub-expression of v that carries operand ``name`` (a Sym or an atom over it), at the top level of concat/len/join"""
+        if isinstance(v, Atom) and v.op in ('concat', 'len', 'join'):
+            for a in v.args:
+                r = conv_in(a, name)
+                if r is not None:
+                    return r
+            return None
+        if name in repr(v):
+            return v
+        return None
+    for tag in ('float', 'int', 'bool'):
+        try:
+            amp = c07_run(model, g, acts, tag)
+            ln = _runs(model, 'LEN', lambda: [Sym(tag, 'F')])
+            cc = _runs(model, 'CONCATENATE', lambda: [Sym(tag, 'F'), Sym('str', 'T')])
+        except Unmodelled as e:
+            res.ob('R8', '& / LEN / CONCATENATE', {'operand': tag}, True, 'undecided: %s' % e)
+            continue
+        if any(o.imprecise for o in amp + ln + cc):
+            res.ob('R8', '& / LEN / CONCATENATE', {'operand': tag}, True, 'undecided (unmodelled construct)')
+            continue
+        convs = {}
+        for label, outs in (('&', amp), ('LEN', ln), ('CONCATENATE', cc)):
+            got = set()
+            for o in outs:
+                if o.kind != 'return' or o.value.tag == 'err':
+                    continue
+                cv = conv_in(o.value, 'F:')
+                got.add(repr(cv))
+            convs[label] = got
+        ok = len(convs['&']) == 1 and convs['&'] == convs['LEN'] == convs['CONCATENATE']
+        res.ob('R8', '& / LEN / CONCATENATE', {'operand': tag}, ok, repr(convs))
+        if not ok:
+            res.violation('R8', 'concat:text-of-number:%s' % tag, m.where(f),
+                          'the text of a %s operand differs between & (%s), LEN (%s) and CONCATENATE (%s): LEN(a&b) = LEN(a)+LEN(b) fails for such an '
+                          'operand (e.g. a whole-valued float)' % (tag, sorted(convs['&']), sorted(convs['LEN']), sorted(convs['CONCATENATE'])),
+                          case={'operand': tag}, func=f.name)
+
+
+def c07_run(model, g, acts, tag):
+    from . import c07
+    from .. import roles
+    lex = roles.operator_lexemes(g, ['AMP'])
+    return c07.run_action(model, g, acts, 'concat', lambda: [Sym(tag, 'F'), Const(lex['AMP']), Sym('str', 'T')], H.date_opaque(model))
